@@ -306,9 +306,12 @@ impl Property for TamperGcOutput {
         w.del = 16;
         w.oversize = 0;
         let ops = ctx.tier.pick(200usize, 350);
-        // versions = N policies make "required to retain" non-empty and GC drop something
+        // versions = N policies make "required to retain" non-empty and GC drop something; half of
+        // the other generated policies (ttl leaves, any / all) are kept: the store evaluates them at
+        // time 0, where an expiry leaf retains everything ("only versions=X will collect at the
+        // moment", the option's help text), so a dropped value is an alteration there too
         let hist = driver::history_strategy(Profile::Shape, w, 0, 0..1, 40..ops).prop_map(|mut h| {
-            if !h.config.gc_policy.starts_with("versions") {
+            if !h.config.gc_policy.starts_with("versions") && vcore::hash_str(&format!("{}:{}", h.config.gc_policy, h.ops.len())) % 2 == 0 {
                 h.config.gc_policy = "versions = 1".into();
             }
             h.config.mani_rollover_ratio = 2;
@@ -426,6 +429,7 @@ impl Property for TamperGcOutput {
             let (old_digest, victim, ents) = pool[vcore::gens::sel(tsel, pool.len())].clone();
             o.nontrivial = true;
             o.label("tampered-gc-output");
+            o.label(if c.history.config.gc_policy.contains("ttl") { "policy:with-expiry-leaf" } else { "policy:versions-only" });
             // rebuild the output without the victim
             let _ = std::fs::remove_dir_all(&scratch);
             copy_tree(&root, &scratch);
